@@ -45,6 +45,7 @@ type glGroup struct {
 	prefix  string   // prefix of the names in the generated program (for a second package in the same file)
 	funcs   []glFunc // functions to translate
 	externs []string // qualified names (pkg.Func) of calls that become SCallExt oracles
+	hoist   bool              // give the locals declared inside a loop body their zero value before the loop (one environment shape for proofs; dead stores in Go terms)
 	devirt  map[string]string // interface type name -> the one translated type whose methods its calls resolve to
 	more    []glGroup // further packages translated into the same file (their pkgDir/prefix/funcs/externs)
 }
@@ -179,7 +180,31 @@ type glFn struct {
 	results  []string        // named results ("" when unnamed)
 	resTypes []types.Type
 	declared map[string]types.Object // flat local environment: name -> object
+	names    map[types.Object]string // environment name of every local object (a shadowing declaration gets name#k)
+	usedName map[string]bool
 	ntmp     int
+}
+
+// vname: the environment name of a local variable (by object, so that an inner declaration that shadows an outer one
+// gets its own slot name#2, name#3, ...)
+func (fn *glFn) vname(obj types.Object, fallback string) string {
+	if obj == nil {
+		return fallback
+	}
+	if fn.names == nil {
+		fn.names = map[types.Object]string{}
+		fn.usedName = map[string]bool{}
+	}
+	if n, ok := fn.names[obj]; ok {
+		return n
+	}
+	n := obj.Name()
+	for k := 2; fn.usedName[n]; k++ {
+		n = fmt.Sprintf("%s#%d", obj.Name(), k)
+	}
+	fn.names[obj] = n
+	fn.usedName[n] = true
+	return n
 }
 
 func (f *glFn) isOut(i int) bool {
@@ -189,6 +214,15 @@ func (f *glFn) isOut(i int) bool {
 		}
 	}
 	return false
+}
+
+// idName: environment name of the variable an identifier refers to (definition or use)
+func (t *glTr) idName(fn *glFn, id *ast.Ident) string {
+	obj := t.p.info.Defs[id]
+	if obj == nil {
+		obj = t.p.info.Uses[id]
+	}
+	return fn.vname(obj, id.Name)
 }
 
 type glErr struct{ msg string }
@@ -339,7 +373,7 @@ func (t *glTr) collectParams(fn *glFn) {
 			fn.declared[id.Name] = obj
 			return
 		}
-		fn.params = append(fn.params, id.Name)
+		fn.params = append(fn.params, fn.vname(obj, id.Name))
 		fn.paramObj = append(fn.paramObj, obj)
 		fn.declared[id.Name] = obj
 	}
@@ -370,7 +404,7 @@ func (t *glTr) collectParams(fn *glFn) {
 				fn.resTypes = append(fn.resTypes, ty)
 			}
 			for _, id := range f.Names {
-				fn.results = append(fn.results, id.Name)
+				fn.results = append(fn.results, fn.vname(t.p.info.Defs[id], id.Name))
 				fn.resTypes = append(fn.resTypes, ty)
 				fn.declared[id.Name] = t.p.info.Defs[id]
 			}
@@ -469,6 +503,21 @@ func (t *glTr) writesThrough(fn *glFn, obj types.Object) bool {
 						if oi < len(args) && t.rootObj(args[oi]) == obj {
 							found = true
 						}
+					}
+				} else {
+					// an external (or an interface method treated as one) declared to write through argument k
+					en := name
+					if f, ok := s.Fun.(*ast.SelectorExpr); ok {
+						if sel, ok := t.p.info.Selections[f]; ok && sel.Kind() == types.MethodVal {
+							if rt := t.p.info.TypeOf(f.X); rt != nil {
+								if _, isIface := rt.Underlying().(*types.Interface); isIface {
+									en = rt.String() + "." + f.Sel.Name
+								}
+							}
+						}
+					}
+					if k, ok := t.externOut[en]; ok && k < len(s.Args) && t.rootObj(s.Args[k]) == obj {
+						found = true
 					}
 				}
 			}
@@ -705,7 +754,7 @@ func (t *glTr) expr(c *glCtx, e ast.Expr) string {
 				}
 				t.fail(e, "package-level variable %s", v.Name())
 			}
-			return "EVar " + glStr(x.Name)
+			return "EVar " + glStr(c.fn.vname(v, x.Name))
 		}
 		t.fail(e, "identifier %s", x.Name)
 	case *ast.BasicLit:
@@ -902,8 +951,14 @@ func (t *glTr) callExpr(c *glCtx, x *ast.CallExpr) string {
 	arg := func(i int) string { return t.expr(c, x.Args[i]) }
 	switch name {
 	case "len":
-		if !isIntSeq(t.p.info.TypeOf(x.Args[0])) {
-			t.fail(x, "len of %s", t.p.info.TypeOf(x.Args[0]))
+		// the length of a slice of non-integers (e.g. of interface values) is the length of the list that stands for
+		// it in the model (its elements are opaque)
+		switch t.p.info.TypeOf(x.Args[0]).Underlying().(type) {
+		case *types.Slice, *types.Array:
+		default:
+			if !isIntSeq(t.p.info.TypeOf(x.Args[0])) {
+				t.fail(x, "len of %s", t.p.info.TypeOf(x.Args[0]))
+			}
 		}
 		return "ELen (" + arg(0) + ")"
 	case "min", "max":
@@ -967,7 +1022,7 @@ func (t *glTr) lvalOf(c *glCtx, e ast.Expr) string {
 		if x.Name == "_" {
 			return "LIgnore"
 		}
-		return "LVar " + glStr(x.Name)
+		return "LVar " + glStr(t.idName(c.fn, x))
 	case *ast.StarExpr:
 		return t.lvalOf(c, x.X)
 	case *ast.UnaryExpr:
@@ -976,16 +1031,16 @@ func (t *glTr) lvalOf(c *glCtx, e ast.Expr) string {
 		}
 	case *ast.IndexExpr:
 		if id, ok := x.X.(*ast.Ident); ok && isIntSeq(t.p.info.TypeOf(x.X)) {
-			return fmt.Sprintf("LIndex %s (%s)", glStr(id.Name), t.expr(c, x.Index))
+			return fmt.Sprintf("LIndex %s (%s)", glStr(t.idName(c.fn, id)), t.expr(c, x.Index))
 		}
 	case *ast.SliceExpr:
 		if id, ok := x.X.(*ast.Ident); ok && !x.Slice3 && isIntSeq(t.p.info.TypeOf(x.X)) {
-			return fmt.Sprintf("LSlice %s %s %s", glStr(id.Name), t.optExpr(c, x.Low), t.optExpr(c, x.High))
+			return fmt.Sprintf("LSlice %s %s %s", glStr(t.idName(c.fn, id)), t.optExpr(c, x.Low), t.optExpr(c, x.High))
 		}
 	case *ast.SelectorExpr:
 		if sel, ok := t.p.info.Selections[x]; ok && sel.Kind() == types.FieldVal && len(sel.Index()) == 1 {
 			if id, ok := x.X.(*ast.Ident); ok {
-				return fmt.Sprintf("LField %s %s", glStr(id.Name), glStr(x.Sel.Name))
+				return fmt.Sprintf("LField %s %s", glStr(t.idName(c.fn, id)), glStr(x.Sel.Name))
 			}
 		}
 	}
@@ -1029,12 +1084,19 @@ func (t *glTr) callStmt(c *glCtx, x *ast.CallExpr, lhs []string) (string, int) {
 		return fmt.Sprintf("SCall [%s] %s [%s]", strings.Join(l, "; "), glStr(callee.spec.alias), strings.Join(as, "; ")), nres
 	}
 	name := t.callName(x)
+	var as []string
 	if id, ok := x.Fun.(*ast.Ident); ok && c.fn.funcPars[id.Name] {
 		name = id.Name
+	} else if iname, recvArg, ok := t.ifaceMethod(c, x); ok && t.externs[iname] {
+		// a method of an interface value the model does not represent: an oracle named <interface>.<method>; when
+		// the receiver is an element of a slice, WHICH element is passed as the first argument
+		name = iname
+		if recvArg != "" {
+			as = append(as, recvArg)
+		}
 	} else if !t.externs[name] {
 		t.fail(x, "call of %q: not a translated function, a function parameter or a declared external", name)
 	}
-	var as []string
 	for _, a := range x.Args {
 		as = append(as, t.expr(c, a))
 	}
@@ -1059,6 +1121,31 @@ func (t *glTr) callStmt(c *glCtx, x *ast.CallExpr, lhs []string) (string, int) {
 		l = append(append([]string{}, l...), t.lvalOf(c, x.Args[k]))
 	}
 	return fmt.Sprintf("SCallExt [%s] %s [%s]", strings.Join(l, "; "), glStr(name), strings.Join(as, "; ")), nl
+}
+
+// ifaceMethod: x is a call  recv.M(...)  where recv has an interface type: returns "<iface>.<M>" and, when recv is
+// xs[i], the translated index i.
+func (t *glTr) ifaceMethod(c *glCtx, x *ast.CallExpr) (string, string, bool) {
+	f, ok := x.Fun.(*ast.SelectorExpr)
+	if !ok {
+		return "", "", false
+	}
+	sel, ok := t.p.info.Selections[f]
+	if !ok || sel.Kind() != types.MethodVal {
+		return "", "", false
+	}
+	rt := t.p.info.TypeOf(f.X)
+	if rt == nil {
+		return "", "", false
+	}
+	if _, isIface := rt.Underlying().(*types.Interface); !isIface {
+		return "", "", false
+	}
+	name := rt.String() + "." + f.Sel.Name
+	if ix, ok := f.X.(*ast.IndexExpr); ok {
+		return name, t.expr(c, ix.Index), true
+	}
+	return name, "", true
 }
 
 type glParam struct {
@@ -1110,9 +1197,7 @@ func (t *glTr) declare(fn *glFn, id *ast.Ident) {
 	if obj == nil {
 		return // `:=` re-using an existing variable
 	}
-	if old, ok := fn.declared[id.Name]; ok && old != obj {
-		t.fail(id, "local %s shadows / re-declares another variable of the same name", id.Name)
-	}
+	fn.vname(obj, id.Name) // a shadowing declaration gets its own environment slot
 	fn.declared[id.Name] = obj
 }
 
@@ -1165,7 +1250,7 @@ func (t *glTr) stmt(fn *glFn, s ast.Stmt) string {
 			}
 			var sb strings.Builder
 			printer.Fprint(&sb, t.p.fset, ret.Results[0])
-			return fmt.Sprintf("SCallExt [LVar %s] %s [EVar %s]", glStr(id.Name), glStr("sort.Slice: "+sb.String()), glStr(id.Name))
+			return fmt.Sprintf("SCallExt [LVar %s] %s [EVar %s]", glStr(t.idName(fn, id)), glStr("sort.Slice: "+sb.String()), glStr(t.idName(fn, id)))
 		case name == "copy":
 			return t.withPre(c, fmt.Sprintf("SCopy (%s) (%s)", t.lvalOf(c, call.Args[0]), t.expr(c, call.Args[1])))
 		case strings.HasPrefix(name, "binary.LittleEndian.PutUint"), strings.HasPrefix(name, "binary.BigEndian.PutUint"):
@@ -1206,9 +1291,9 @@ func (t *glTr) stmt(fn *glFn, s ast.Stmt) string {
 					continue
 				}
 				if len(vs.Values) == len(vs.Names) {
-					out = append(out, fmt.Sprintf("SAssign (LVar %s) (%s)", glStr(id.Name), t.expr(c, vs.Values[i])))
+					out = append(out, fmt.Sprintf("SAssign (LVar %s) (%s)", glStr(t.idName(fn, id)), t.expr(c, vs.Values[i])))
 				} else if len(vs.Values) == 0 {
-					out = append(out, fmt.Sprintf("SAssign (LVar %s) (%s)", glStr(id.Name), t.zero(s, t.p.info.TypeOf(id))))
+					out = append(out, fmt.Sprintf("SAssign (LVar %s) (%s)", glStr(t.idName(fn, id)), t.zero(s, t.p.info.TypeOf(id))))
 				} else {
 					t.fail(s, "var declaration with a tuple initialiser")
 				}
@@ -1356,48 +1441,81 @@ func (t *glTr) stmt(fn *glFn, s ast.Stmt) string {
 		if x.Post != nil {
 			post = t.stmt(fn, x.Post)
 		}
+		pre = append(pre, t.loopLocals(fn, x.Body)...)
 		body := t.block(fn, x.Body.List)
 		return glSeq(append(pre, fmt.Sprintf("SFor (%s)\n(%s)\n(%s)", cond, post, body)))
 	case *ast.RangeStmt:
-		// for i, v := range xs  over an integer slice / array; xs must be a variable that the body does not assign
-		id, ok := x.X.(*ast.Ident)
-		if !ok || !isIntSeq(t.p.info.TypeOf(x.X)) {
+		// for i, v := range xs  over an integer slice / array: xs is evaluated once (as in Go); the body may assign
+		// neither xs (when it is a variable) nor the key variable
+		if !isIntSeq(t.p.info.TypeOf(x.X)) {
 			t.fail(s, "range over %s", t.p.info.TypeOf(x.X))
 		}
 		if x.Tok != token.DEFINE {
 			t.fail(s, "range with assignment to existing variables")
 		}
+		var pre []string
+		seqName := ""
+		if id, ok := x.X.(*ast.Ident); ok {
+			seqName = t.idName(fn, id)
+		} else {
+			seqName = t.tmp(c)
+			pre = append(pre, c.pre...)
+			c.pre = nil
+			e := t.expr(c, x.X)
+			pre = append(pre, c.pre...)
+			c.pre = nil
+			pre = append(pre, fmt.Sprintf("SAssign (LVar %s) (%s)", glStr(seqName), e))
+		}
+		keyName := ""
+		if k, ok := x.Key.(*ast.Ident); ok && k.Name != "_" {
+			t.declare(fn, k)
+			keyName = t.idName(fn, k)
+		}
 		assigned := false
 		ast.Inspect(x.Body, func(n ast.Node) bool {
-			if as, ok := n.(*ast.AssignStmt); ok {
-				for _, l := range as.Lhs {
-					if li, ok := l.(*ast.Ident); ok && li.Name == id.Name {
+			check := func(l ast.Expr) {
+				if li, ok := l.(*ast.Ident); ok {
+					nm := t.idName(fn, li)
+					if nm == seqName || (keyName != "" && nm == keyName) {
 						assigned = true
 					}
 				}
 			}
+			switch as := n.(type) {
+			case *ast.AssignStmt:
+				for _, l := range as.Lhs {
+					check(l)
+				}
+			case *ast.IncDecStmt:
+				check(as.X)
+			}
 			return true
 		})
 		if assigned {
-			t.fail(s, "range over %s which the body re-assigns", id.Name)
+			t.fail(s, "range whose body assigns the ranged variable or the key")
 		}
-		iname := t.tmp(c)
-		if k, ok := x.Key.(*ast.Ident); ok && k.Name != "_" {
-			t.declare(fn, k)
-			iname = k.Name
+		iname := keyName
+		if iname == "" {
+			iname = t.tmp(c)
 		}
 		var bodyPre []string
 		if x.Value != nil {
 			if v, ok := x.Value.(*ast.Ident); ok && v.Name != "_" {
 				t.declare(fn, v)
-				bodyPre = append(bodyPre, fmt.Sprintf("SAssign (LVar %s) (EIndex (EVar %s) (EVar %s))", glStr(v.Name), glStr(id.Name), glStr(iname)))
+				bodyPre = append(bodyPre, fmt.Sprintf("SAssign (LVar %s) (EIndex (EVar %s) (EVar %s))", glStr(t.idName(fn, v)), glStr(seqName), glStr(iname)))
 			}
 		}
+		if t.g.hoist {
+			if v, ok := x.Value.(*ast.Ident); ok && v.Name != "_" {
+				pre = append(pre, fmt.Sprintf("SAssign (LVar %s) (%s)", glStr(t.idName(fn, v)), t.zero(v, t.p.info.Defs[v].Type())))
+			}
+		}
+		pre = append(pre, t.loopLocals(fn, x.Body)...)
 		body := glSeq(append(bodyPre, t.block(fn, x.Body.List)))
 		init := fmt.Sprintf("SAssign (LVar %s) (EInt 0)", glStr(iname))
-		cond := fmt.Sprintf("ECmp CLt (EVar %s) (ELen (EVar %s))", glStr(iname), glStr(id.Name))
+		cond := fmt.Sprintf("ECmp CLt (EVar %s) (ELen (EVar %s))", glStr(iname), glStr(seqName))
 		post := fmt.Sprintf("SAssign (LVar %s) (EBin OAdd I64 (EVar %s) (EInt 1))", glStr(iname), glStr(iname))
-		return glSeq([]string{init, fmt.Sprintf("SFor (%s)\n(%s)\n(%s)", cond, post, body)})
+		return glSeq(append(pre, init, fmt.Sprintf("SFor (%s)\n(%s)\n(%s)", cond, post, body)))
 	case *ast.BranchStmt:
 		if x.Label != nil {
 			t.fail(s, "labelled branch")
@@ -1471,6 +1589,48 @@ func (t *glTr) stmt(fn *glFn, s ast.Stmt) string {
 	return ""
 }
 
+// loopLocals: zero-value assignments for the variables declared inside a loop body (option hoist), in source order
+func (t *glTr) loopLocals(fn *glFn, body *ast.BlockStmt) []string {
+	if !t.g.hoist {
+		return nil
+	}
+	var out []string
+	seen := map[types.Object]bool{}
+	add := func(id *ast.Ident) {
+		obj := t.p.info.Defs[id]
+		if obj == nil || id.Name == "_" || seen[obj] {
+			return
+		}
+		seen[obj] = true
+		out = append(out, fmt.Sprintf("SAssign (LVar %s) (%s)", glStr(fn.vname(obj, id.Name)), t.zero(id, obj.Type())))
+	}
+	ast.Inspect(body, func(n ast.Node) bool {
+		switch x := n.(type) {
+		case *ast.AssignStmt:
+			if x.Tok == token.DEFINE {
+				for _, l := range x.Lhs {
+					if id, ok := l.(*ast.Ident); ok {
+						add(id)
+					}
+				}
+			}
+		case *ast.ValueSpec:
+			for _, id := range x.Names {
+				add(id)
+			}
+		case *ast.RangeStmt:
+			if id, ok := x.Key.(*ast.Ident); ok {
+				add(id)
+			}
+			if id, ok := x.Value.(*ast.Ident); ok {
+				add(id)
+			}
+		}
+		return true
+	})
+	return out
+}
+
 func (t *glTr) switchBody(fn *glFn, list []ast.Stmt) string { return t.block(fn, list) }
 
 // isHoistedCall: is this call one that becomes SCall / SCallExt (rather than a conversion / builtin expression)?
@@ -1483,6 +1643,15 @@ func (t *glTr) isHoistedCall(c *glCtx, x *ast.CallExpr) bool {
 	}
 	if id, ok := x.Fun.(*ast.Ident); ok && c.fn.funcPars[id.Name] {
 		return true
+	}
+	if f, ok := x.Fun.(*ast.SelectorExpr); ok {
+		if sel, ok := t.p.info.Selections[f]; ok && sel.Kind() == types.MethodVal {
+			if rt := t.p.info.TypeOf(f.X); rt != nil {
+				if _, isIface := rt.Underlying().(*types.Interface); isIface && t.externs[rt.String()+"."+f.Sel.Name] {
+					return true
+				}
+			}
+		}
 	}
 	return t.externs[t.callName(x)]
 }
